@@ -54,6 +54,10 @@ RULES = {
     "R-HASHER-SOURCE": ("rules.derived", "r_hasher_source"),
     "R-DROP-ORDER": ("rules.ownership", "r_drop_order"),
     "R-UNCHECKED-LEDGER": ("rules.ownership", "r_unchecked_ledger"),
+    "R-REBORROW": ("rules.typelevel", "r_reborrow"),
+    "R-HINT-LOWER": ("rules.round3", "r_hint_lower"),
+    "R-TRY-WRAPPERS": ("rules.round3", "r_try_wrappers"),
+    "R-CAP-WRAPPERS": ("rules.round3", "r_cap_wrappers"),
     "R-ACCT": ("rules.acct", "r_acct"),
     "R-CTRL-WRITE": ("rules.acct", "r_ctrl_write"),
     "R-ERASE-BEFORE": ("rules.ownership", "r_erase_before"),
@@ -298,3 +302,34 @@ for _p, _rs in _ROUND2.items():
     _extra = "; ".join(_ROUND2_CLAUSE[_r] for _r in _rs if _r in _ROUND2_CLAUSE)
     if _extra and _extra not in PROPS[_p]["decided"]:
         PROPS[_p]["decided"] += "; also: " + _extra
+
+# rules added after the third round of independent mutations (DESIGN.md 12.8)
+_ROUND3 = {'C16': ['R-REBORROW'], 'C02': ['R-REBORROW', 'R-DUP-FORGET', 'R-OWNING-ITER', 'R-CLONE-GUARD-RANGE', 'R-DROP-ORDER', 'R-PAR-CONSUME', 'R-LINEAR-INNER'], 'C14': ['R-REBORROW', 'R-KEEP-KEY'], 'C15': ['R-REBORROW'],
+           'C03': ['R-PAR-CONSUME'], 'C10': ['R-PAR-CONSUME', 'R-ZST-PTR', 'R-DUP-FORGET'], 'C06': ['R-ZST-PTR', 'R-BULKDROP-GUARD'], 'C09': ['R-ZST-PTR', 'R-ACCT'],
+           'C01': ['R-HINT-LOWER'], 'C07': ['R-LINK'], 'C12': ['R-TRY-WRAPPERS'], 'C08': ['R-CAP-WRAPPERS', 'R-HINT-LOWER'], 'C05': ['R-BUCKET-FRESH', 'R-RESERVE-FIRST']}
+_ROUND3_CLAUSE = {
+    "R-REBORROW": "a by-reference method of a mutable-access handle (entry, IterMut, Drain, ..) never returns the handle's own collection lifetime (R-REBORROW)",
+    "R-PAR-CONSUME": "the parallel drain leaf forgets its producer only when its cursor is exhausted, every taken element is consumed (R-PAR-CONSUME)",
+    "R-ZST-PTR": "both arms (zero-sized / sized) of the bucket index<->pointer conversions use the same index argument (R-ZST-PTR)",
+    "R-BULKDROP-GUARD": "bulk destructor runs (clear, drop) happen under a guard that resets the table, so len() and contents agree after a panicking destructor (R-BULKDROP-GUARD)",
+    "R-ACCT": "`items` moves only by exactly one per FULL byte written or cleared, so count-terminated iteration sees every stored element (R-ACCT)",
+    "R-KEEP-KEY": "insert on an occupied entry replaces exactly the value of the stored pair (R-KEEP-KEY)",
+    "R-HINT-LOWER": "space reserved ahead of extend/from_iter is sized from the lower size_hint bound only (R-HINT-LOWER)",
+    "R-LINK": "a set's table is never replaced without its hasher (R-LINK)",
+    "R-DUP-FORGET": "a cursor or resource duplicated out of a Drop type is paired with forgetting the original on every path (R-DUP-FORGET)",
+    "R-OWNING-ITER": "owning iterators release elements and block exactly once (R-OWNING-ITER)",
+    "R-DROP-ORDER": "elements are dropped before their block is freed (R-DROP-ORDER)",
+    "R-LINEAR-INNER": "a RawTableInner is never duplicated (R-LINEAR-INNER)",
+    "R-CLONE-GUARD-RANGE": "the clone guard covers exactly the slots already written (R-CLONE-GUARD-RANGE)",
+    "R-CAP-WRAPPERS": "reserve/shrink_to/shrink_to_fit/capacity/allocation_size/clear of every layer forward the untouched request to the layer below, shrink requests are not filtered by capacity() (R-CAP-WRAPPERS)",
+    "R-BUCKET-FRESH": "an Occupied entry never holds a bucket found before a rehash (R-BUCKET-FRESH)",
+    "R-RESERVE-FIRST": "rustc_entry reserves before searching (R-RESERVE-FIRST)",
+    "R-TRY-WRAPPERS": "the public try_reserve of HashMap/HashSet/HashTable reach the raw fallible reservation, reach no Infallible call and do no arithmetic on the request (R-TRY-WRAPPERS)",
+}
+for _p, _rs in _ROUND3.items():
+    for _r in _rs:
+        if _r not in PROPS[_p]["rules"]:
+            PROPS[_p]["rules"].append(_r)
+    _extra = "; ".join(_ROUND3_CLAUSE[_r] for _r in _rs if _r in _ROUND3_CLAUSE)
+    if _extra and _extra not in PROPS[_p]["decided"]:
+        PROPS[_p]["decided"] += "; round 3: " + _extra
